@@ -3,6 +3,11 @@
 (* after every step, the answers every query must give.                                         *)
 EXTENDS CobCache, Json
 
-Emit == (steps = MaxSteps) => PrintT(<<"CASE", ToJson([log |-> log])>>)
+\* 1: print every behaviour of maximal length; k > 1: about one in k (the big instance: every state
+\* is model-checked, a sample of the behaviours is offered for the replay)
+CONSTANT EmitEvery
+
+Emit == (steps = MaxSteps /\ (EmitEvery = 1 \/ TLCGet("distinct") % EmitEvery = 0))
+            => PrintT(<<"CASE", ToJson([log |-> log])>>)
 EmitInv == Emit
 =============================================================================
